@@ -5,7 +5,7 @@ V = os.path.dirname(os.path.dirname(os.path.abspath(__file__)))
 rows = []
 for f in sorted(glob.glob(os.path.join(V, "seeded", "*", "meta.json"))):
     m = json.load(open(f))
-    if "-r2m" not in m["name"] and "-r3m" not in m["name"] and "-r4m" not in m["name"]:
+    if not re.search(r"-r[2-9]m", m["name"]):
         continue
     by = m.get("detected_by_other_check") or (m["property"] if m.get("detected") else "NOT YET")
     needs = re.sub(r"\s+", " ", m.get("needs_to_manifest", "")).strip().replace("|", "/")
